@@ -73,6 +73,14 @@ def run(tier, replay=None):
                 what = kind if kind not in ('compiled', 'rejected') else ('wrote a file although it reported an error' if recs[i]['obs']['wrote'] else 'neither output nor diagnostic')
                 key = "%s:%s" % (kind, fuzzlib.stable(detail) if detail else what)
                 chk.violation(key, "xcmp on input %s (%s): %s %s" % (c['id'], c['fam'], what, detail), {"input.x": c['src'].encode('latin-1', 'replace')})
+        # uninitialised reads: a subsample through valgrind memcheck (the sanitizers above do not see them)
+        plain = vlib.build_cxx("x_case", ["x_case.cpp"])
+        sub = [c for c in cases if c['fam'] == 'unusual'][:: max(1, len([c for c in cases if c['fam'] == 'unusual']) // (350 if tier == "quick" else 20000))]
+        sub += [{'id': 'seed%d' % k, 'src': s, 'input': []} for k, s in enumerate(seeds[:40])]
+        vg = fuzzlib.valgrind_batch(plain, None, sub, d, "c09vg", "c")
+        chk.set("valgrind_memcheck_inputs", len(sub) if vg is not None else 0)
+        for c, head in (vg or []):
+            chk.violation("memcheck:" + fuzzlib.stable(head), "xcmp on input %s: valgrind memcheck reports %s" % (c['id'], head), {"input.x": c['src'].encode('latin-1', 'replace')})
         # the lexer against spec/Lex.tla: every string up to length 4 over a small alphabet, tokenised by TLC and by the tool
         import lexcheck
         nlex, lexbad = lexcheck.run(d, exe, exe, only="x")
